@@ -355,22 +355,18 @@ theorem heap_handle_detached (h h' : Heap) (op : HOp) (ret : Option Addr) (root 
     `AddValue`; `AddContainer` / `AddList`: `v` = the new cell) the node `y` that `Lookup(path)` returned
     before shares no container / list with the graph below `root` any more — so by
     `heap_handle_detached` later writes through the old handle `y`, or through any handle below it, are
-    invisible from `root`.  The new node must share no container / list with `y` and reach no container /
-    list below `x` (this is `HOp.Ok` of the call, and follows from `Apart h root v`).
+    invisible from `root`.  The ONLY condition on the new node: it shares no container / list with `y`
+    (the earlier `¬ Reach h v x` is not needed — the statement is about `Apart`, not about acyclicity).
     `root.RemoveAt(path)` detaches `y` when the last component is a plain name (`LastPlain`, the domain
-    of remove paths) — necessarily so: `heap_removeAt_index_no_detach_counterexample`.
-    Third clause: for a plain last component `¬ Reach h v x` alone suffices for the new node. -/
+    of remove paths) — necessarily so: `heap_removeAt_index_no_detach_counterexample`. -/
 theorem heap_overwrite_detaches (h h' : Heap) (rank : Addr → Nat) (root x y : Addr) (segs : List String)
     (hr : h.RankedBy rank) (hm : h.MapsOk) (hs : SibSep h root)
     (ha : ancestorH h root segs = some x) (hy : lookupSegsH h root segs = some y) :
-    (∀ v, Apart h v y → (∀ w, Reach h x w → Composite h w → ¬ Reach h v w) →
-      addAtSegsH h root segs v = some h' → Apart h' root y) ∧
-    (LastPlain segs → removeAtSegsH h root segs = some h' → Apart h' root y) ∧
-    (∀ v, LastPlain segs → Apart h v y → ¬ Reach h v x → addAtSegsH h root segs v = some h' → Apart h' root y) := by
+    (∀ v, Apart h v y → addAtSegsH h root segs v = some h' → Apart h' root y) ∧
+    (LastPlain segs → removeAtSegsH h root segs = some h' → Apart h' root y) := by
   obtain ⟨last, hl, _⟩ := ancestorH_spec 0 segs root x ha
-  exact ⟨fun v hvy hvx he => pathwrite_detaches_full hr hm hs ha hy hvy hvx he,
-    fun hp he => (pathwrite_detaches hr hm hs ha hl (hp last hl) hy).1 he,
-    fun v hp hvy hvx he => (pathwrite_detaches hr hm hs ha hl (hp last hl) hy).2 v hvy hvx he⟩
+  exact ⟨fun v hvy he => pathwrite_detaches_full hr hm hs ha hy hvy he,
+    fun hp he => (pathwrite_detaches hr hm hs ha hl (hp last hl) hy).1 he⟩
 
 /-- `idxHeap`: 0 nilLeaf · 1 {} · 2 [#1] · 3 = root {l: #2} -/
 def idxHeap : Heap := ⟨[.leaf Scalar.null, .cont [], .list [1], .cont [("l", 2)]]⟩
@@ -398,15 +394,13 @@ def exD : Heap := ⟨[.leaf Scalar.null, .leaf ⟨"int", "1"⟩, .cont [("k", 1)
 theorem nonvacuous_heap_overwrite_detaches :
     exD.RankedBy (fun a => a) ∧ exD.MapsOk ∧ SibSep exD 5 ∧ ancestorH exD 5 ["a", "l[0]"] = some 4 ∧
     lookupSegsH exD 5 ["a", "l[0]"] = some 2 ∧ ¬ LastPlain ["a", "l[0]"] ∧ Apart exD 6 2 ∧
-    (∀ w, Reach exD 4 w → Composite exD w → ¬ Reach exD 6 w) ∧
     ∃ h', addAtSegsH exD 5 ["a", "l[0]"] 6 = some h' ∧ Apart h' 5 2 ∧
       ((List.range 7).filter fun a => h'.get? a != exD.get? a) = [3] := by
   have hr : exD.RankedBy (fun a => a) := rankedBy_of_all (by decide)
   have hm : exD.MapsOk := mapsOk_of_all (by decide +kernel)
   have hs : SibSep exD 5 := sibSep_of_sibSepB (by decide +kernel)
-  have hv := leaf_value_ok (h := exD) (v := 6) (s := ⟨"string", "v"⟩) rfl 4
   have hap : Apart exD 6 2 := apart_of_apartB (by decide +kernel)
-  refine ⟨hr, hm, hs, by decide +kernel, by decide +kernel, ?_, hap, hv.2.2.2, ?_⟩
+  refine ⟨hr, hm, hs, by decide +kernel, by decide +kernel, ?_, hap, ?_⟩
   · intro hp
     have := hp "l[0]" rfl
     revert this
@@ -417,7 +411,7 @@ theorem nonvacuous_heap_overwrite_detaches :
       rw [he] at this; cases this
     | some h' =>
       refine ⟨h', rfl, (heap_overwrite_detaches exD h' _ 5 4 2 _ hr hm hs (by decide +kernel) (by decide +kernel)).1
-        6 hap hv.2.2.2 he, ?_⟩
+        6 hap he, ?_⟩
       have : ((addAtSegsH exD 5 ["a", "l[0]"] 6).map fun h' =>
           (List.range 7).filter fun a => h'.get? a != exD.get? a) = some [3] := by decide +kernel
       rw [he] at this
